@@ -11,14 +11,15 @@ Two layers, both over ALL states / inputs / histories of the models:
   bit (`restart_*`: set at construction, cleared only by a WRITE of g80v1 index 7 = 0, never set
   again), the broadcast bit (`broadcast_*`), the application-controlled bits (`app_bits_mirror`);
 * database component (`Dnp3.Props.DbComponent`): the class bits equal "an unwritten event of that
-  class is buffered" (`class_bits_exact_partial`; the full statement is false, D3/D4), the overflow
-  bit interval (`overflow_flag_*`).
+  class is buffered" and `unwritten_classes` never underflows (`class_bits_exact`,
+  `no_counter_underflow`, for every operation sequence and per operation; D3 repaired — at session
+  level D4 remains), the overflow bit interval (`overflow_flag_*`).
 
 The statements are restated verbatim from the proof files; definitions used in them
 (`StepWriteClears`, `StepFrag`, `BcastOf`, `IsSolConfirm`, `BcEvid`, `clearOut`, …) are in
 `Dnp3.Proofs.OutstationSkel` / `OutstationC13`.
 Known defects: D16 (an unsolicited confirm clears a broadcast indication that was never reported:
-`confirm_clears_broadcast` is the exact characterisation), D3/D4 (class bits, see DbComponent).
+`confirm_clears_broadcast` is the exact characterisation), D4 (class bits at session level).
 -/
 namespace Dnp3.Props.C13
 open Dnp3 Dnp3.Proofs.Frame Dnp3.Proofs.Iin Dnp3.Proofs.Skel Dnp3.Proofs.C13
@@ -174,16 +175,46 @@ theorem confirm_clears_broadcast (a : Acc) (o : List OOut) (c : Cb) (isNull : Bo
 section Db
 open Dnp3.DbM Dnp3.DbProofs
 
-/-- `class_bits_exact`, partial: after every history without a `Written` record overflowed out,
-    `unwritten_classes` does not panic and bit c is set iff the buffer holds a class-c record
-    that is not `Written` -/
-theorem class_bits_exact_partial (evMax : Nat) (sel : Option Nat) (ops : List DbOp)
-    (hs : SafeRun (Db.new evMax sel) ops) :
+/-- `counters_exact`: `total` AND `written` counters equal the per-class / per-type counts of
+    records / of `Written` records: an invariant of every operation sequence from a fresh database,
+    the overflow of a `Written` record out of the buffer included (false before the repair of D3:
+    `insert` left `written` too high) -/
+theorem counters_exact (evMax : Nat) (sel : Option Nat) (ops : List DbOp) :
+    CountersExact (run (Db.new evMax sel) ops) :=
+  @Dnp3.Props.Db.counters_exact evMax sel ops
+
+/-- … and it is preserved by every single operation from any state that has it -/
+theorem counters_exact_preserved (db : Db) (op : DbOp) (h : CountersExact db) : CountersExact (step db op) :=
+  @Dnp3.Props.Db.counters_exact_preserved db op h
+
+/-- `class_bits_exact`: after every operation sequence from a fresh database `unwritten_classes`
+    does not panic and bit c is set iff the buffer holds a class-c record that is not `Written` -/
+theorem class_bits_exact (evMax : Nat) (sel : Option Nat) (ops : List DbOp) :
     ∃ b1 b2 b3, (run (Db.new evMax sel) ops).unwrittenClasses = some (b1, b2, b3) ∧
       (b1 = true ↔ ∃ r ∈ (run (Db.new evMax sel) ops).events, r.cls = 1 ∧ r.st ≠ .written) ∧
       (b2 = true ↔ ∃ r ∈ (run (Db.new evMax sel) ops).events, r.cls = 2 ∧ r.st ≠ .written) ∧
       (b3 = true ↔ ∃ r ∈ (run (Db.new evMax sel) ops).events, r.cls = 3 ∧ r.st ≠ .written) :=
-  @Dnp3.Props.Db.class_bits_exact_partial evMax sel ops hs
+  @Dnp3.Props.Db.class_bits_exact evMax sel ops
+
+/-- … and after every single operation from any state with exact counters -/
+theorem class_bits_exact_step (db : Db) (op : DbOp) (h : CountersExact db) :
+    ∃ b1 b2 b3, (step db op).unwrittenClasses = some (b1, b2, b3) ∧
+      (b1 = true ↔ ∃ r ∈ (step db op).events, r.cls = 1 ∧ r.st ≠ .written) ∧
+      (b2 = true ↔ ∃ r ∈ (step db op).events, r.cls = 2 ∧ r.st ≠ .written) ∧
+      (b3 = true ↔ ∃ r ∈ (step db op).events, r.cls = 3 ∧ r.st ≠ .written) :=
+  @Dnp3.Props.Db.class_bits_exact_step db op h
+
+/-- `no_counter_underflow`: the checked subtraction `total - written` of `unwritten_classes`
+    (`Count::subtract`) never underflows on a database reached from a fresh one by any operation
+    sequence (`none` = the panic of the dev build) -/
+theorem no_counter_underflow (evMax : Nat) (sel : Option Nat) (ops : List DbOp) :
+    (run (Db.new evMax sel) ops).unwrittenClasses ≠ none :=
+  @Dnp3.Props.Db.no_counter_underflow evMax sel ops
+
+/-- … nor after any single operation from any state with exact counters -/
+theorem no_counter_underflow_step (db : Db) (op : DbOp) (h : CountersExact db) :
+    (step db op).unwrittenClasses ≠ none :=
+  @Dnp3.Props.Db.no_counter_underflow_step db op h
 
 /-- the overflow flag: raised by every discard, never lowered by an insert, and after a clear it
     is set iff it was set and some type is still at capacity -/
